@@ -1349,7 +1349,7 @@ class Atoms:
         self.assert_arrays_are_consistent_sizes()
 
     def pop(self, pos=-1):
-        del(self, pos)
+        del(self[[pos % len(self)]])
 
     def __getitem__(self, i):
         idx = np.array(i, ndmin=1)
